@@ -1,6 +1,7 @@
 package core
 
 import (
+	"fmt"
 	"go/token"
 	"go/types"
 	"regexp"
@@ -49,13 +50,24 @@ func boolJoin(b *ssa.BasicBlock) *ssa.Phi {
 		return nil
 	}
 	phi, ok := ifi.Cond.(*ssa.Phi)
-	if !ok || phi.Block() != b {
+	var cmp *ssa.BinOp
+	if !ok {
+		// value join: `v := a; if c { v = b }; if v != nil {…}` — the phi is compared with nil
+		cmp, phi = nilCompareOfPhi(ifi.Cond)
+		if phi == nil {
+			return nil
+		}
+	}
+	if phi.Block() != b {
 		return nil
 	}
 	for _, in := range b.Instrs[:n-1] {
-		if _, isPhi := in.(*ssa.Phi); !isPhi {
+		if _, isPhi := in.(*ssa.Phi); !isPhi && in != ssa.Instruction(cmp) {
 			return nil
 		}
+	}
+	if cmp != nil && cmp.Block() != b {
+		return nil
 	}
 	for _, p := range b.Preds {
 		if p.Index >= b.Index && p != b {
@@ -73,6 +85,59 @@ func boolJoin(b *ssa.BasicBlock) *ssa.Phi {
 		}
 	}
 	return phi
+}
+
+// nilCompareOfPhi: cond is `phi == nil` or `phi != nil`.
+func nilCompareOfPhi(cond ssa.Value) (*ssa.BinOp, *ssa.Phi) {
+	bo, ok := cond.(*ssa.BinOp)
+	if !ok || (bo.Op != token.EQL && bo.Op != token.NEQ) {
+		return nil, nil
+	}
+	x, y := bo.X, bo.Y
+	if k, isC := x.(*ssa.Const); isC && k.IsNil() {
+		x, y = y, x
+	}
+	k, isC := y.(*ssa.Const)
+	if !isC || !k.IsNil() {
+		return nil, nil
+	}
+	phi, ok := x.(*ssa.Phi)
+	if !ok {
+		return nil, nil
+	}
+	return bo, phi
+}
+
+// joinOperand reads a join block for flow entering from predecessor #k: either the branch is decided (truth 1: true
+// edge only, 0: false edge only) or the literals holding on the true / false edge are returned (truth -1).
+func (w *World) joinOperand(b *ssa.BasicBlock, phi *ssa.Phi, k int) (truth int, lt, lf Lit) {
+	ifi := b.Instrs[len(b.Instrs)-1].(*ssa.If)
+	e := phi.Edges[k]
+	if ifi.Cond == ssa.Value(phi) {
+		if v, isBool := boolConst(e); isBool {
+			if v {
+				return 1, lt, lf
+			}
+			return 0, lt, lf
+		}
+		if w == nil {
+			return -1, lt, lf
+		}
+		return -1, w.NormLit(e, true), w.NormLit(e, false)
+	}
+	cmp, _ := nilCompareOfPhi(ifi.Cond)
+	eq := cmp.Op == token.EQL
+	if c, isC := e.(*ssa.Const); isC && c.IsNil() {
+		if eq {
+			return 1, lt, lf
+		}
+		return 0, lt, lf
+	}
+	if w == nil {
+		return -1, lt, lf
+	}
+	expr := w.Render(e) + " == nil"
+	return -1, Lit{eq, expr}, Lit{!eq, expr}
 }
 
 func predIndex(b, pred *ssa.BasicBlock) int {
@@ -93,7 +158,7 @@ func joinSuccs(j *ssa.BasicBlock, phi *ssa.Phi, pred *ssa.BasicBlock, c *Cut) []
 			continue
 		}
 		if k >= 0 {
-			if v, isBool := boolConst(phi.Edges[k]); isBool && v != (i == 0) {
+			if truth, _, _ := (*World)(nil).joinOperand(j, phi, k); truth >= 0 && (truth == 1) != (i == 0) {
 				continue
 			}
 			if c != nil && c.Via[ViaKey{j, k, i}] {
@@ -155,13 +220,34 @@ func (w *World) GateCut(fn *ssa.Function, g Gate) *Cut {
 				c.EdgeLits = append(c.EdgeLits, f.String()+" @"+w.InstrPos(b.Instrs[len(b.Instrs)-1]))
 			}
 		}
+		// a none-flag tested here
+		for _, fp := range g.Flags {
+			ifi := b.Instrs[len(b.Instrs)-1].(*ssa.If)
+			v, flip := ifi.Cond, false
+			for {
+				u, isNot := v.(*ssa.UnOp)
+				if !isNot || u.Op != token.NOT {
+					break
+				}
+				flip = !flip
+				v = u.X
+			}
+			if w.isNoneFlag(fn, v, fp.Lit) {
+				e := 0
+				if fp.Pol == flip {
+					e = 1
+				}
+				c.Edges[EdgeKey{b, e}] = true
+				c.EdgeLits = append(c.EdgeLits, fmt.Sprintf("none-flag(%s)=%v @%s", fp.Lit.Text, fp.Pol, w.InstrPos(ifi)))
+			}
+		}
 		// a materialised boolean: the condition tested on the path from each predecessor is that predecessor's operand
 		if phi := boolJoin(b); phi != nil && len(g.Lits) > 0 {
-			for k, e := range phi.Edges {
-				if _, isConst := e.(*ssa.Const); isConst {
+			for k := range phi.Edges {
+				truth, lt, lf := w.joinOperand(b, phi, k)
+				if truth >= 0 {
 					continue
 				}
-				lt, lf := w.NormLit(e, true), w.NormLit(e, false)
 				for _, p := range g.Lits {
 					if p.Match(lt) {
 						c.Via[ViaKey{b, k, 0}] = true
@@ -211,6 +297,139 @@ func (w *World) GateCut(fn *ssa.Function, g Gate) *Cut {
 }
 
 const maxSeeDepth = 2
+
+// isNoneFlag: v is true exactly when no element took the edge lit. Two realisations are recognised.
+//
+//	(a) a loop flag: a bool phi all of whose constant-false operands arrive from blocks guarded by lit, and which every
+//	    edge matching lit forces to false (all paths from that edge enter the phi's block through a false operand);
+//	(b) a call of a private helper whose returns are the constants true/false, where no edge matching lit (rendered in
+//	    the caller's terms) can reach `return true` and every `return false` is guarded by lit.
+func (w *World) isNoneFlag(fn *ssa.Function, v ssa.Value, lit LitPat) bool {
+	only := Gate{Lits: []LitPat{lit}}
+	switch x := v.(type) {
+	case *ssa.Phi:
+		if x.Parent() != fn {
+			return false
+		}
+		falseEdge := map[*ssa.BasicBlock]bool{}
+		for i, e := range x.Edges {
+			bv, isC := boolConst(e)
+			if isC && !bv {
+				p := x.Block().Preds[i]
+				falseEdge[p] = true
+				if !w.GuardedBy(p.Instrs[len(p.Instrs)-1], only) {
+					return false
+				}
+			}
+		}
+		if len(falseEdge) == 0 {
+			return false
+		}
+		n := 0
+		for _, blk := range fn.Blocks {
+			t, f, ok := w.BlockLits(blk)
+			if !ok {
+				continue
+			}
+			for i, l := range []Lit{t, f} {
+				if !lit.Match(l) {
+					continue
+				}
+				n++
+				start := blk.Succs[i]
+				entered := map[*ssa.BasicBlock]bool{}
+				if start == x.Block() {
+					entered[blk] = true
+				} else {
+					seen := map[*ssa.BasicBlock]bool{start: true}
+					st := []*ssa.BasicBlock{start}
+					for len(st) > 0 {
+						y := st[len(st)-1]
+						st = st[:len(st)-1]
+						for _, su := range y.Succs {
+							if su == x.Block() {
+								entered[y] = true
+								continue
+							}
+							if !seen[su] {
+								seen[su] = true
+								st = append(st, su)
+							}
+						}
+					}
+				}
+				for p := range entered {
+					if !falseEdge[p] {
+						return false
+					}
+				}
+			}
+		}
+		return n > 0
+	case *ssa.Call:
+		h := x.Common().StaticCallee()
+		if h == nil || x.Common().IsInvoke() || len(h.Blocks) == 0 || len(h.Blocks) > 40 || h.Synthetic != "" || !IsKarpenterFn(h) || !w.privateTo(h, fn) || w.seeDepth >= maxSeeDepth {
+			return false
+		}
+		args := x.Common().Args
+		if len(args) != len(h.Params) || h.Signature.Results().Len() != 1 {
+			return false
+		}
+		m := map[*ssa.Parameter]string{}
+		for j, p := range h.Params {
+			m[p] = w.Render(args[j])
+		}
+		w.subst = append(w.subst, m)
+		w.seeDepth++
+		seeThrough++
+		defer func() {
+			w.subst = w.subst[:len(w.subst)-1]
+			w.seeDepth--
+			seeThrough--
+		}()
+		trueRet := map[*ssa.BasicBlock]bool{}
+		nTrue := 0
+		for _, b := range h.Blocks {
+			r, ok := b.Instrs[len(b.Instrs)-1].(*ssa.Return)
+			if !ok {
+				continue
+			}
+			bv, isC := boolConst(r.Results[0])
+			if !isC {
+				return false
+			}
+			if bv {
+				trueRet[b] = true
+				nTrue++
+			} else if !w.GuardedBy(r, only) {
+				return false
+			}
+		}
+		if nTrue == 0 {
+			return false
+		}
+		n := 0
+		for _, blk := range h.Blocks {
+			t, f, ok := w.BlockLits(blk)
+			if !ok {
+				continue
+			}
+			for i, l := range []Lit{t, f} {
+				if !lit.Match(l) {
+					continue
+				}
+				n++
+				for b := range Reach([]*ssa.BasicBlock{blk.Succs[i]}, nil) {
+					if trueRet[b] {
+						return false
+					}
+				}
+			}
+		}
+		return n > 0
+	}
+	return false
+}
 
 // condCallOutcome decomposes a branch condition that tests the result of a call: c, !c, c == nil, c != nil, where c is a
 // call or one component of a call's tuple. It returns the call, the result index (-1: last/only), and the outcome the
